@@ -212,7 +212,7 @@ func WakePublishListeners(onlyInternal bool, subIDs ...uuid.UUID) {
 	for _, subID := range subIDs {
 		waitSet := pubWaiters[subID]
 		if waitSet == nil {
-			return
+			continue
 		}
 		for c := range waitSet {
 			close(c)
